@@ -218,6 +218,79 @@ def check_spec(ctx, spec):
                 "first_pages": [[list(x) for x in s][:8] for s in observed[:2]]}, limit=3)
 
 
+def multi_spec(rng):
+    """multi-section document: every section has its own page_by column (differently named and placed) or none"""
+    k = rng.randint(2, 3)
+    sections, base = [], 0
+    for s_ in range(k):
+        n = rng.randint(1, 9)
+        grp = rng.random() < 0.8
+        df, meta = G.gen_df(rng, n, rng.randint(2, 4), group_cols=1 if grp else 0, row_base=base, maxruns=3,
+                            divider_p=0.0, blank_p=0.0)
+        base += n
+        body = {"page_by": meta["page_by"]} if grp else {}
+        sections.append({"df": df, "body": body, "colheader": rng.choice(["default", "none"]), "_meta": meta})
+    return {"kind": "multi", "sections": sections, "multi_header": "nested", "title": None,
+            "page": {"nrow": rng.randint(4, 12)}}
+
+
+def check_multi(ctx, spec):
+    case = strip_meta(spec)
+    o = H.build_and_encode(spec)
+    if o.stage == "build":
+        ctx.count("rejected_at_construction")
+        return
+    if o.stage == "encode":
+        ctx.case(case, True)
+        info = H.exc_info(o.exc)
+        ctx.violation(f"rtf_encode raised {info['exc']} @ {info['where']} (multi-section)", case, info)
+        return
+    doc = R.parse(o.out)
+    ctx.count("docs_parsed")
+    ctx.count("multi_section_docs")
+    sec_of, key_of = {}, {}
+    for si, sec in enumerate(spec["sections"]):
+        names = [c["name"] for c in sec["df"]["cols"]]
+        pb = sec["body"].get("page_by") or []
+        n = len(sec["df"]["cols"][0]["values"])
+        base = sec["_meta"]["row_base"] if "_meta" in sec else None
+        keycol = next(c for c in sec["df"]["cols"] if c["values"] and isinstance(c["values"][0], str)
+                      and E.TAG_DATA.fullmatch(c["values"][0])) if n else None
+        for r in range(n):
+            g = int(E.TAG_DATA.fullmatch(keycol["values"][r]).group(1))
+            sec_of[g] = si
+            key_of[g] = tuple(sec["df"]["cols"][names.index(c)]["values"][r] for c in pb)
+    nontrivial = False
+    for p, pg in enumerate(doc.pages):
+        got, exp = [], []
+        prev = None
+        for role, b in E.page_roles(pg):
+            if role is None and b.kind == "row":
+                ctx.violation(f"unclassifiable row on page {p + 1}: {b.texts!r} (multi-section)", case, {"page": p})
+                return
+            if role == "heading":
+                got.append(("H", b.texts[0]))
+            elif role == "data":
+                g = E.data_key(b)[0]
+                got.append(("D", g))
+                cur = (sec_of.get(g), key_of.get(g, ()))
+                if cur != prev:
+                    for lab in cur[1]:
+                        exp.append(("H", lab))
+                exp.append(("D", g))
+                prev = cur
+        ctx.count("pages_walked")
+        ctx.count("headings_matched", sum(1 for e in exp if e[0] == "H"))
+        nontrivial = nontrivial or sum(1 for e in exp if e[0] == "H") >= 2
+        if exp != got:
+            i = next((j for j, (a, b) in enumerate(zip(exp, got)) if a != b), min(len(exp), len(got)))
+            ctx.violation(f"multi-section page {p + 1}: heading/data sequence differs at position {i}: expected "
+                          f"{exp[i] if i < len(exp) else 'end'}, got {got[i] if i < len(got) else 'end'}", case,
+                          {"page": p, "expected": [list(e) for e in exp], "got": [list(g) for g in got]})
+            break
+    ctx.case(case, nontrivial)
+
+
 def random_spec(rng):
     levels = rng.choice([1, 1, 2, 2, 3])
     sbn = rng.choice([0, 0, 0, 1, 2])
@@ -295,7 +368,12 @@ def run_shard(desc, ctx):
     else:
         for _ in range(desc["n"]):
             check_spec(ctx, random_spec(rng))
+        for _ in range(max(10, desc["n"] // 6)):
+            check_multi(ctx, multi_spec(rng))
 
 
 def replay(data, ctx):
-    check_spec(ctx, data["case"])
+    if data["case"].get("kind") == "multi":
+        check_multi(ctx, data["case"])
+    else:
+        check_spec(ctx, data["case"])
